@@ -167,23 +167,33 @@ def run(repo, tier):
         ok = i_add is not None and i_body is not None and i_add < i_body
         r.ob("R6.3", "targets/stablehlo.py::Printer.tostring arguments bound before body", ok, "function body printed before argument $refs are bound", loc(S.rel, f))
         break
-    # R6.4 like operand of a constant
-    like_ok = None
-    for n in ast.walk(f):
-        if isinstance(n, ast.If) and norm_src(n.test) == "like.ref in self.defined_refs":
-            then_assign = [s for s in n.body if isinstance(s, ast.Assign) and dotted(s.targets[0]) == "like_val"]
-            else_assign = [s for s in n.orelse if isinstance(s, ast.Assign) and dotted(s.targets[0]) == "like_val"]
-            like_ok = (
-                len(then_assign) == 1 and "like.ref" in norm_src(then_assign[0].value)
-                and len(else_assign) == 1 and isinstance(else_assign[0].value, ast.Call)
-                and (call_name(else_assign[0].value) or "").endswith("tostring") and dotted(else_assign[0].value.args[0]) == "like"
-            )
-            lnode = n
-    if like_ok is None:
-        raise AnalysisError("stablehlo.Printer.tostring: `if like.ref in self.defined_refs` not found")
-    r.ob("R6.4", "targets/stablehlo.py::Printer.tostring like operand", like_ok,
-         "the like operand of a constant is not (bound $ref | printed sub-tree)", loc(S.rel, lnode))
-
+    # R6.4 like operand of a constant: the short `$like.ref` form only under `like.ref in self.defined_refs`
+    n_like = 0
+    for p in enumerate_paths(f, unroll=(0, 1)):
+        for i, e in enumerate(p.events):
+            if e.kind == "stmt" and isinstance(e.node, ast.Assign) and dotted(e.node.targets[0]) == "like_val":
+                n_like += 1
+                v = e.node.value
+                guard = None
+                for e2 in p.events[:i]:
+                    if e2.kind == "test" and norm_src(e2.node) == "like.ref in self.defined_refs":
+                        guard = e2.pol
+                short = isinstance(v, ast.JoinedStr) and "like.ref" in norm_src(v)
+                full = isinstance(v, ast.Call) and (call_name(v) or "").endswith("tostring") and v.args and dotted(v.args[0]) == "like"
+                if short:
+                    ok = guard is True
+                    why = ("the like operand is printed as the bare `$like.ref` on a path that does not establish `like.ref in "
+                           "self.defined_refs`: the $ref may be unbound at this point of the pattern")
+                elif full:
+                    ok = True
+                    why = ""
+                else:
+                    ok = False
+                    why = f"like operand printed as `{norm_src(v)}`: neither a bound $ref nor the printed sub-tree"
+                r.ob("R6.4", "targets/stablehlo.py::Printer.tostring like operand " + ("short form" if short else "sub-tree" if full else "other"),
+                     ok, why, loc(S.rel, e.node))
+    if n_like == 0:
+        raise AnalysisError("stablehlo.Printer.tostring: assignment of like_val not found")
     # normalize(): the like operand given to a bare Python number must come from the operation's own operands
     nz = repo.func("expr.py", "normalize")
     for p in enumerate_paths(nz, unroll=(0, 1)):
